@@ -546,6 +546,167 @@ theorem protocol_order_full {α : Type} {cfg : Cfg} {P : Params α} {rank : Key 
       (b = false → ∀ k, k ∈ preKeys mid ↔ k ∈ postKeys mid) :=
   protocol_order h hst (C01.startOK_of_eq h hG hst) choices hbad
 
+/-! ## what ONE callback sees: tuples with missing hooks -/
+
+/-- which of the five hooks a callback 5-tuple has (the others are `None`) -/
+structure Hooks where
+  start : Bool
+  startState : Bool
+  pretask : Bool
+  posttask : Bool
+  finish : Bool
+
+/-- `get_async` calls a hook only when the tuple has it: `if cb[0]: cb[0](dsk)`, `if start_state:`, `unpack_callbacks`
+drops the missing `pretask`/`posttask` entries, `if finish:`; `submit` is not a callback event at all -/
+def Hooks.wants (h : Hooks) : Ev → Bool
+  | .start => h.start
+  | .startState => h.startState
+  | .pretask _ => h.pretask
+  | .posttask _ => h.posttask
+  | .finish _ => h.finish
+  | .submit _ => false
+
+/-- the events of one scheduler call as seen by a callback with the hooks `h` -/
+def view {α : Type} (h : Hooks) (log : List (Ev × State α)) : List (Ev × State α) := log.filter (fun e => h.wants e.1)
+
+theorem filterMap_congr' {β γ : Type} {f g : β → Option γ} : ∀ (l : List β), (∀ x ∈ l, f x = g x) →
+    l.filterMap f = l.filterMap g
+  | [], _ => rfl
+  | a :: l, h => by
+    rw [List.filterMap_cons, List.filterMap_cons, h a (by simp), filterMap_congr' l (fun x hx => h x (List.mem_cons_of_mem _ hx))]
+
+theorem preKeys_view {α : Type} (h : Hooks) (l : List (Ev × State α)) :
+    preKeys (view h l) = if h.pretask then preKeys l else [] := by
+  unfold view preKeys
+  rw [List.filterMap_filter]
+  cases hp : h.pretask
+  · simp only [Bool.false_eq_true, if_false]
+    apply List.filterMap_eq_nil_iff.mpr
+    intro e _
+    obtain ⟨ev, st⟩ := e
+    cases ev with
+    | pretask k => simp only [Hooks.wants, hp]; rfl
+    | start => dsimp only; generalize h.wants Ev.start = b; cases b <;> rfl
+    | startState => dsimp only; generalize h.wants Ev.startState = b; cases b <;> rfl
+    | posttask k => dsimp only; generalize h.wants (Ev.posttask k) = b; cases b <;> rfl
+    | finish f => dsimp only; generalize h.wants (Ev.finish f) = b; cases b <;> rfl
+    | submit ks => dsimp only; generalize h.wants (Ev.submit ks) = b; cases b <;> rfl
+  · simp only [if_true]
+    apply filterMap_congr'
+    intro e _
+    obtain ⟨ev, st⟩ := e
+    cases ev with
+    | pretask k => simp only [Hooks.wants, hp]; rfl
+    | start => dsimp only; generalize h.wants Ev.start = b; cases b <;> rfl
+    | startState => dsimp only; generalize h.wants Ev.startState = b; cases b <;> rfl
+    | posttask k => dsimp only; generalize h.wants (Ev.posttask k) = b; cases b <;> rfl
+    | finish f => dsimp only; generalize h.wants (Ev.finish f) = b; cases b <;> rfl
+    | submit ks => dsimp only; generalize h.wants (Ev.submit ks) = b; cases b <;> rfl
+
+theorem postKeys_view {α : Type} (h : Hooks) (l : List (Ev × State α)) :
+    postKeys (view h l) = if h.posttask then postKeys l else [] := by
+  unfold view postKeys
+  rw [List.filterMap_filter]
+  cases hp : h.posttask
+  · simp only [Bool.false_eq_true, if_false]
+    apply List.filterMap_eq_nil_iff.mpr
+    intro e _
+    obtain ⟨ev, st⟩ := e
+    cases ev with
+    | posttask k => simp only [Hooks.wants, hp]; rfl
+    | start => dsimp only; generalize h.wants Ev.start = b; cases b <;> rfl
+    | startState => dsimp only; generalize h.wants Ev.startState = b; cases b <;> rfl
+    | pretask k => dsimp only; generalize h.wants (Ev.pretask k) = b; cases b <;> rfl
+    | finish f => dsimp only; generalize h.wants (Ev.finish f) = b; cases b <;> rfl
+    | submit ks => dsimp only; generalize h.wants (Ev.submit ks) = b; cases b <;> rfl
+  · simp only [if_true]
+    apply filterMap_congr'
+    intro e _
+    obtain ⟨ev, st⟩ := e
+    cases ev with
+    | posttask k => simp only [Hooks.wants, hp]; rfl
+    | start => dsimp only; generalize h.wants Ev.start = b; cases b <;> rfl
+    | startState => dsimp only; generalize h.wants Ev.startState = b; cases b <;> rfl
+    | pretask k => dsimp only; generalize h.wants (Ev.pretask k) = b; cases b <;> rfl
+    | finish f => dsimp only; generalize h.wants (Ev.finish f) = b; cases b <;> rfl
+    | submit ks => dsimp only; generalize h.wants (Ev.submit ks) = b; cases b <;> rfl
+
+/-- a callback that has both task hooks sees them in order: every prefix of what it sees has the `pretask` of a key
+before its `posttask` -/
+theorem ordered_view {α : Type} (h : Hooks) (hpre : h.pretask = true) (l : List (Ev × State α)) (ho : Ordered l) :
+    Ordered (view h l) := by
+  intro a b hab k hk
+  obtain ⟨l1, l2, hl, h1, _⟩ := List.filter_eq_append_iff.mp hab
+  have h1' : view h l1 = a := h1
+  rw [← h1'] at hk ⊢
+  rw [postKeys_view] at hk
+  rw [preKeys_view, hpre]
+  simp only [if_true]
+  split at hk
+  · exact ho l1 l2 hl k hk
+  · cases hk
+
+/-- **the protocol as ONE callback sees it** (any subset of the five hooks): from the event sequence of a scheduler call
+`[start, start_state] ++ mid ++ [finish b]` it sees `start` (if it has the hook) first, then `start_state` (if it has
+it), then its task events - no key twice, a `posttask` only after the `pretask` when it has both hooks, exactly the
+scheduler's `pretask` (`posttask`) keys when it has that hook - then `finish b` (if it has the hook) last. -/
+theorem view_protocol {α : Type} (h : Hooks) (st0 st : State α) (b : Bool) (mid : List (Ev × State α))
+    (hmid : ∀ e ∈ mid, midEv e.1 = true) (hpn : (preKeys mid).Nodup) (hqn : (postKeys mid).Nodup) (ho : Ordered mid) :
+    view h ([(Ev.start, ({} : State α)), (Ev.startState, st0)] ++ mid ++ [(Ev.finish b, st)]) =
+        (if h.start then [(Ev.start, ({} : State α))] else []) ++ (if h.startState then [(Ev.startState, st0)] else []) ++
+          view h mid ++ (if h.finish then [(Ev.finish b, st)] else []) ∧
+      (∀ e ∈ view h mid, ∃ k, e.1 = Ev.pretask k ∨ e.1 = Ev.posttask k) ∧
+      (preKeys (view h mid)).Nodup ∧ (postKeys (view h mid)).Nodup ∧
+      (h.pretask = true → preKeys (view h mid) = preKeys mid) ∧
+      (h.posttask = true → postKeys (view h mid) = postKeys mid) ∧
+      (h.pretask = true → Ordered (view h mid)) := by
+  refine ⟨?_, ?_, ?_, ?_, ?_, ?_, ?_⟩
+  · unfold view
+    simp only [List.filter_append, List.filter_cons, List.filter_nil, Hooks.wants]
+    cases h.start <;> cases h.startState <;> cases h.finish <;> simp
+  · intro e he
+    unfold view at he
+    obtain ⟨hem, hw⟩ := List.mem_filter.mp he
+    have hm := hmid e hem
+    obtain ⟨ev, s⟩ := e
+    cases ev with
+    | pretask k => exact ⟨k, Or.inl rfl⟩
+    | posttask k => exact ⟨k, Or.inr rfl⟩
+    | submit ks => simp [Hooks.wants] at hw
+    | start => simp [midEv] at hm
+    | startState => simp [midEv] at hm
+    | finish f => simp [midEv] at hm
+  · rw [preKeys_view]; split
+    · exact hpn
+    · simp
+  · rw [postKeys_view]; split
+    · exact hqn
+    · simp
+  · intro hp; rw [preKeys_view, hp]; rfl
+  · intro hp; rw [postKeys_view, hp]; rfl
+  · intro hp; exact ordered_view h hp mid ho
+
+open Dask.C01 in
+/-- **the protocol as every single callback sees it, for the whole call**: for every closed acyclic graph, every completion
+order and every subset of the five hooks a callback tuple may have -/
+theorem callback_sees_protocol {α : Type} {cfg : Cfg} {P : Params α} {rank : Key → Nat} {st0 : State α}
+    (h : Hyp cfg rank) (hG : GraphOK cfg.g cfg.results) (hst : startState cfg P = .ok st0)
+    (choices : List Nat) (hbad : (getAsync cfg P choices).outcome ≠ .error .badChoice) (hk : Hooks) :
+    ∃ mid st b, view hk (getAsync cfg P choices).log =
+        (if hk.start then [(Ev.start, ({} : State α))] else []) ++ (if hk.startState then [(Ev.startState, st0)] else []) ++
+          view hk mid ++ (if hk.finish then [(Ev.finish b, st)] else []) ∧
+      (b = false ↔ (getAsync cfg P choices).outcome = .ok .done) ∧
+      (∀ e ∈ view hk mid, ∃ k, e.1 = Ev.pretask k ∨ e.1 = Ev.posttask k) ∧
+      (preKeys (view hk mid)).Nodup ∧ (postKeys (view hk mid)).Nodup ∧
+      (hk.pretask = true → hk.posttask = true → b = false → ∀ k, k ∈ preKeys (view hk mid) ↔ k ∈ postKeys (view hk mid)) ∧
+      (hk.pretask = true → Ordered (view hk mid)) := by
+  obtain ⟨mid, st, b, hlog, hmid, hpn, hqn, _, hord, hb, hsucc⟩ := protocol_order_full h hG hst choices hbad
+  obtain ⟨v1, v2, v3, v4, v5, v6, v7⟩ := view_protocol hk st0 st b mid hmid hpn hqn hord
+  refine ⟨mid, st, b, by rw [hlog]; exact v1, hb, v2, v3, v4, ?_, v7⟩
+  intro hp hq hb0 k
+  rw [v5 hp, v6 hq]
+  exact hsucc hb0 k
+
 /-! ## non-vacuity / witnesses -/
 /-- the former counterexample `with cb: (with cb: pass); get`: on the repaired code the get sees `cb` -/
 example : (exec (.withObj 7 (.seq (.withObj 7 .skip) .get)) {}).toOption.map (·.2) = some [[7]] := by decide
@@ -570,5 +731,10 @@ example : ∃ s0 s1 s2 : St, step (.enterCm 0) s0 = .ok (s1, none) ∧ s2.cms.ge
   ⟨{ active := [5], cms := [(0, { cbs := [5, 6] })] },
    { active := [5, 6], cms := [(0, { cbs := [5, 6], stack := [[6]] })] },
    { active := [5, 6, 9], cms := [(0, { cbs := [5, 6], stack := [[6]] })] }, rfl, rfl, by decide, by decide⟩
+
+/-- non-vacuity: a callback with only `pretask` and `finish` over the diamond run of C01 -/
+example : (view { start := false, startState := false, pretask := true, posttask := false, finish := true }
+    (getAsync (C01.exCfg 1) C01.exP [1, 0, 0]).log).map (·.1) = [.pretask 1, .pretask 2, .pretask 3, .finish false] := by decide
+
 
 end Dask.C05
